@@ -1066,6 +1066,14 @@ N('davidson-extension-full-pivoting', 'C15',
 N('davidson-correction-count-from-ritz-values', 'C15',
   [('DavidsonSymEigsSolver.h', "Index(residues.cols()));", "Index(eigvals.size()));")], 'same count from the other array')
 
+# ----------------------------------------------------------------------------- F44
+M('complexshift-double-root-from-the-quadratic', 'C02', 'back-transformation-conditioned-at-the-double-root',
+  [('GenEigsComplexShiftSolver.h', "                lambdaj = shift + vv / vOPv;\n", "                lambdaj = (err1 < err2) ? root1 : root2;\n")], 'reverts fix F44')
+M('complexshift-probe-estimate-never-taken', 'C02', 'back-transformation-conditioned-at-the-double-root',
+  [('GenEigsComplexShiftSolver.h', "if (abs(disc) < sqrt(sqrt(Eigen::NumTraits<Scalar>::epsilon())) && vOPv != Complex(0))", "if (abs(nu) < Scalar(0) && vOPv != Complex(0))")], 'the guard no longer looks at the discriminant')
+N('complexshift-probe-estimate-threshold-sqrt-eps', 'C02',
+  [('GenEigsComplexShiftSolver.h', "if (abs(disc) < sqrt(sqrt(Eigen::NumTraits<Scalar>::epsilon())) && vOPv != Complex(0))", "if (abs(disc) < sqrt(Eigen::NumTraits<Scalar>::epsilon()) * Scalar(100) && vOPv != Complex(0))")], 'another small threshold on the discriminant')
+
 # ----------------------------------------------------------------------------- F43 (K1)
 M('davidson-correction-denominator-unguarded', 'C15', 'division-guarded',
   [('DavidsonSymEigsSolver.h', "            tmp = (tmp.array().abs() < den_floor).select(Vector::Constant(tmp.size(), den_floor), tmp);\n", "")], 'reverts fix F43')
